@@ -21,10 +21,10 @@ LEVEL = 'exploration'
 TECHNIQUE = ('controlled schedule exploration of real threads with a deterministic sys.monitoring LINE scheduler; '
              'old/new decision oracle; rule-store read/mutation log for mechanism classification')
 RULE = ('schedules = plans over two threads X (reloading) and Y (deciding) on one enforcer: P1 `EDIT; X@k; Y; X`, '
-        'P2 `Y@k; EDIT; X; Y` for EVERY library line boundary k (exhaustive), P3 `EDIT; X@k1; Y@k2; X; Y` and '
+        'P2 `Y@k; EDIT; X; Y` for EVERY library line boundary k (exhaustive), P5 `Y@f; EDIT; X@k; Y; X` with Y stopped right after it fetched a check from the store and EVERY boundary k of the reload (exhaustive), P3 `EDIT; X@k1; Y@k2; X; Y` and '
         'P4 `Y@k2; EDIT; X@k1; Y; X` sampled (thorough: exhaustive around the state-changing boundaries); scenarios: '
         'main-file edit with directory overrides, directory edit, registered defaults with a permissive default rule, '
-        'deprecated default with old-name override, no main file, rules differing only through rule: references; every '
+        'deprecated default with old-name override, deprecated default OR-merged (enforce_new_defaults off), undefined name decided by the default rule, no main file, rules differing only through rule: references; every '
         'probe (name, roles) of the scenario for the deciding thread. Non-trivial = the plan pre-empts a thread strictly '
         'inside its load step; distinct = distinct (scenario, plan, probes).')
 ASSUMPTIONS = ['pre-emption points are library line boundaries; a switch inside a third-party call (YAML parsing, os.stat) '
@@ -35,12 +35,12 @@ LEVEL_TEXT = ('Every single pre-emption point of the reload (P1) and of the deci
               'probe; double pre-emptions are sampled (thorough: enumerated around the boundaries where the rule store changes). '
               'Schedules at line granularity are finite per scenario, so the single-switch families are complete.')
 LEVEL_NOTE = 'trusted: the scheduler (semaphore hand-over, one runnable thread), the store log wrappers, fresh-enforcer oracle'
-PLAN = {'quick': dict(shards=8, wall=100), 'thorough': dict(shards=16, wall=520)}
+PLAN = {'quick': dict(shards=16, wall=110), 'thorough': dict(shards=16, wall=520)}
 MIN = {'evaluations': 1000, 'preemptions_inside_reload': 500, 'store_reads_logged': 5000}
 ANCHORS = ['oslo_policy.policy:Enforcer.load_rules', 'oslo_policy.policy:Enforcer._load_policy_file',
            'oslo_policy.policy:Enforcer.set_rules', 'oslo_policy.policy:Enforcer.enforce']
 REQUIRED_ANCHORS = ['oslo_policy.policy:Enforcer.enforce', 'oslo_policy.policy:Enforcer.load_rules']
-SAMPLES_P34 = {'quick': 700, 'thorough': 12000}
+SAMPLES_P34 = {'quick': 500, 'thorough': 12000}
 
 SCEN = {
     'main_edit_dir_override': dict(
@@ -59,6 +59,14 @@ SCEN = {
         old={'policy.yaml': {'a': 'rule:h1 and not rule:h2', 'h1': 'role:x', 'h2': 'role:x'}},
         new={'policy.yaml': {'a': 'rule:h1 and not rule:h2', 'h1': 'role:y', 'h2': 'role:y'}},
         defaults=[], probes=[['a', ['x']], ['a', ['y']], ['a', ['x', 'y']]]),
+    'deprecated_merge_flag_off': dict(
+        conf={'enforce_new_defaults': False},
+        old={'policy.yaml': {'x': 'role:a'}}, new={'policy.yaml': {'x': 'role:b'}},
+        defaults=[['new', 'role:n', ['old', 'role:o']]],
+        probes=[['new', ['o']], ['new', ['n']], ['new', []], ['x', ['a']], ['x', ['b']]]),
+    'undefined_name_default': dict(
+        old={'policy.yaml': {'default': '@', 'a': 'role:x'}}, new={'policy.yaml': {'default': '@', 'a': 'role:y'}},
+        defaults=[], probes=[['ghost', []], ['a', ['x']], ['a', ['y']]]),
     'no_main': dict(
         old={'pd/1.yaml': {'a': '@'}}, new={'pd/1.yaml': {'a': '@', 'b': '!'}},
         defaults=[['c', '@', None]], probes=[['a', []], ['c', []]]),
@@ -131,7 +139,7 @@ def build(sc):
     tree = files.Tree(dirs=('pd',))
     for f, c in sc['old'].items():
         tree.write(f, c, 'json')
-    enf = policy.Enforcer(tree.conf())
+    enf = policy.Enforcer(tree.conf(**sc.get('conf', {})))
     register(policy, enf, sc)
     return enf, tree
 
@@ -203,7 +211,7 @@ def execute(sc, pX, pY, plan, trace=False):
         mut = list(MUT)
         settled = {pkey(p): dec(enf, p) for p in probes}
         sig_settled = sig(enf.rules)
-        fresh = policy.Enforcer(tree.conf())
+        fresh = policy.Enforcer(tree.conf(**sc.get('conf', {})))
         register(policy, fresh, sc)
         new = {pkey(p): dec(fresh, p) for p in probes}
         sig_new = sig(fresh.rules)
@@ -287,8 +295,24 @@ def calibrate(name):
     # warm-up (first-call branches inside the library), then measure
     execute(sc, p, p, [['EDIT'], ['X', None], ['Y', None]])
     a = execute(sc, p, p, [['EDIT'], ['X', None], ['Y', None]], trace=True)
-    b = execute(sc, p, p, [['Y', None], ['EDIT'], ['X', None]])
-    return a['counts']['X'], b['counts']['Y'], a
+    b = execute(sc, p, p, [['Y', None], ['EDIT'], ['X', None]], trace=True)
+    return a['counts']['X'], b['counts']['Y'], b
+
+
+def post_fetch_points(sc, probe, limit):
+    """Boundaries of a quiescent decision at which the deciding thread has just fetched a check from the rule store and is
+    about to evaluate it (entry of the library's evaluation helper): pre-empting there lets a reload run underneath a
+    decision that already holds a check object."""
+    ex = execute(sc, probe, probe, [['Y', None], ['EDIT'], ['X', None]], trace=True)
+    pts = [i + 1 for i, (f, line, fn) in enumerate(ex['points'].get('Y', [])) if fn == '_check']
+    # the first line of each evaluation-helper activation
+    out = []
+    prev = None
+    for i in pts:
+        if prev is None or i != prev + 1:
+            out.append(i)
+        prev = i
+    return out[:limit]
 
 
 def state_change_points(name, nX):
@@ -372,6 +396,35 @@ def run(ctx):
                 break
         ctx.stratum('P1', exhaustive=done)
         ctx.stratum('P2', exhaustive=done)
+        # ---- P5: the decider already holds a fetched check; the reload is pre-empted at EVERY boundary ----------------
+        done5 = done
+        if done:
+            for name in names:
+                sc = SCEN[name]
+                nX, nY0, _ = calib[name]
+                probes5 = sc['probes'] if ctx.tier == 'thorough' else sc['probes'][:2]
+                for pY in probes5:
+                    kfs = post_fetch_points(sc, pY, 6 if ctx.tier == 'thorough' else 1)
+                    for kf in kfs:
+                        for k1 in range(1, nX + 1):
+                            idx += 1
+                            if not ctx.mine(idx):
+                                continue
+                            if (idx & 0x1f) == 0 and ctx.expired():
+                                done5 = False
+                                break
+                            case = dict(family='P5', scenario=name, pX=sc['probes'][0], pY=pY,
+                                        plan=[['Y', kf], ['EDIT'], ['X', k1], ['Y', None], ['X', None]])
+                            check_plan(ctx, case)
+                            if idx % 3000 == 0:
+                                ctx.sample(case, 'P5')
+                        if not done5:
+                            break
+                    if not done5:
+                        break
+                if not done5:
+                    break
+        ctx.stratum('P5', exhaustive=done5)
         # ---- P3, P4: two pre-emptions -------------------------------------------
         rnd = ctx.rnd
         if ctx.tier == 'thorough' and done:
